@@ -15,7 +15,7 @@ TECHNIQUE = 'deterministic simulation; differential oracle across option sets x 
 LEVEL = 'exploration'
 BUDGET = {'quick': 200, 'thorough': 2400}
 NCASES = {'quick': 220, 'thorough': 4000}
-RULE = ('cases: peer with a seeded severity mix + 5 seeded option sets (+1 fresh-interpreter run in every 4th case). non-trivial: >= 2 renderings of one peer compared; distinct by '
+RULE = ('cases: peer with a seeded severity mix (a quarter of them with different cipher / MAC lists for the two directions) + 5 seeded option sets (+1 fresh-interpreter run in every 4th case). non-trivial: >= 2 renderings of one peer compared; distinct by '
         '(option pair, severity mix, hash seed).')
 ASSUMPTIONS = ['verbose progress lines ("Starting audit of ...") are not findings; under -v they are nevertheless required not to break the JSON document']
 
@@ -40,6 +40,12 @@ def cases(seed, tier):
             p['enc'] = list(dict.fromkeys(p['enc'] + ['chacha20-poly1305@openssh.com', 'aes128-cbc', 'aes256-cbc', '3des-cbc']))
             p['mac'] = list(dict.fromkeys(p['mac'] + ['hmac-sha2-256-etm@openssh.com', 'hmac-sha2-512-etm@openssh.com', 'umac-128-etm@openssh.com']))
         p['pre'] = rng.choice([[], [], ['hello']])
+        r2 = gen.case_rng(seed, ID, i, 'directions')
+        if r2.random() < 0.25:
+            # a peer whose two directions differ (RFC 4253 allows it): whichever direction the tool reports, every view must report the same one
+            for cat in r2.choice([['mac'], ['enc'], ['mac', 'enc']]):
+                pool = [n for n in gen.db_names(cat) if not n.endswith('-*')]
+                p[cat + '_c2s'] = r2.sample(pool, r2.randrange(1, 5))
         sets = [rng.choice(TEXT_SETS), rng.choice(LEVEL_SETS), rng.choice(JSON_SETS), rng.choice(JSON_SETS), rng.choice(TEXT_SETS + LEVEL_SETS)]
         yield {'profile': p, 'sets': sets, 'nets': [gen.rand_net(rng) for _ in range(3)], 'no_color_env': rng.random() < 0.2, 'fresh': i % 2 == 0,
                'hashseed': rng.choice(['0', '1', '4242', str(rng.getrandbits(20))]), 'pseed': rng.getrandbits(32)}
